@@ -65,7 +65,7 @@ def run(chk):
         "(a) token-level mutations (delete / duplicate / swap / replace one token) of valid front-profile token lists and the out-of-domain literals "
         "the property lists: outcome (schema / error) compared in Coq with the model, no exception may escape, Logger.error must render and every "
         "cited line must exist; (b) random printable text and prefixes of valid texts at every cut point sampled: (also with comments holding \\r, \\f, U+2028 and the other characters str.splitlines() "
-        "takes for line ends): only the implementation-side totality predicate; non-trivial = input is not a valid schema; distinct = input text")
+        "takes for line ends), erroneous texts laid out on one line, with tab indentation and with words of 100..5000 characters: only the implementation-side totality predicate; non-trivial = input is not a valid schema; distinct = input text")
     oracle = printer.float_oracle(None)
     cases, meta, fails = [], [], []
 
@@ -136,6 +136,20 @@ def run(chk):
         text2 = "\n".join(lines)
         for cut in sorted(chk.rng.sample(range(len(text2)), min(len(text2), 6 if quick else 12))) + [len(text2.rstrip("}\n \t,"))]:
             one(text2[:cut], "prefix-with-exotic-line-separators", False)
+        # unusual physical layouts of an erroneous text: everything on one line, tab indentation, and words of 100..5000 characters
+        # (a diagnostic cites the line: it must render whatever the line looks like)
+        k, mt = mutate(chk.rng, toks)
+        flat = printer.render(mt)
+        if "//" not in flat:
+            one(" ".join(flat.split()), "mutation-on-one-line", False)
+        n_long = chk.rng.choice([100, 119, 120, 121, 150, 1000, 5000])
+        word = "".join(chk.rng.choice("abcXYZ_09") for _ in range(n_long))
+        one(chk.rng.choice(['version: "3"\nstruct S {\n\ta' + word + ' @0: ,\n}\n',
+                            'version: "3"\n' + word,
+                            'version: "3"\nstruct S {\n\t' + "f @0:u8,".replace("f", "f" + word) + "g @1:" + word + ",\n}\n",
+                            'version: "3"\nenum E {\n\tA' + word + '=1,B' + word + '=,\n}\n',
+                            'version: "3"\nstruct S { a @0: u8 | unit("' + word + '), }\n',
+                            '\t' * chk.rng.choice([1, 40]) + 'version: "3"\n' + "\t" * 130 + "struct"]), "long-words-and-tabs", False)
         rnd = "".join(chk.rng.choice(string.printable[:95] + "\n\t") for _ in range(chk.rng.randint(0, 60)))
         one(rnd, "random", False)
         one('version: "3"\n' + rnd, "random-after-preamble", False)
